@@ -240,10 +240,12 @@ where
     }
 
     fn n_bins(&self) -> usize {
-        let mut max_edge = self.min.clone();
+        // The edges have to be computed exactly as `build` computes them: summing up the bin
+        // width instead can round differently for floating-point types, and the last edge
+        // built would then not be strictly greater than `max`.
         let mut n_bins = 0;
-        while max_edge <= self.max {
-            max_edge = max_edge + self.bin_width.clone();
+        while self.min.clone() + T::from_usize(n_bins).unwrap() * self.bin_width.clone() <= self.max
+        {
             n_bins += 1;
         }
         n_bins
